@@ -311,24 +311,23 @@ pub fn check_reader(e: En, kind: RKind, wrap: Wrap, image: &[u8], ops: &[R14], r
 
 // ---- a wrapper around a *section* of a stream: wrap, use, unwrap (into_inner), carry on ----------------
 
-fn apply_w<E: dsi_bitstream::prelude::Endianness, BW: dsi_bitstream::prelude::BitWrite<E> + dsi_bitstream::prelude::GammaWrite<E>>(w: &mut BW, ops: &[WOp]) -> bool {
+/// apply the operations and collect what each returned (usize::MAX for an error)
+fn apply_w<E: dsi_bitstream::prelude::Endianness, BW: dsi_bitstream::prelude::BitWrite<E> + dsi_bitstream::prelude::GammaWrite<E>>(w: &mut BW, ops: &[WOp], rets: &mut Vec<usize>) {
     for op in ops {
-        let ok = match op {
-            WOp::Bits(v, n) => w.write_bits(*v, *n).is_ok(),
-            WOp::Unary(x) => w.write_unary(*x).is_ok(),
-            WOp::Code(_, v) => w.write_gamma(*v).is_ok(),
-            _ => true,
+        let r = match op {
+            WOp::Bits(v, n) => w.write_bits(*v, *n).ok(),
+            WOp::Unary(x) => w.write_unary(*x).ok(),
+            WOp::Code(_, v) => w.write_gamma(*v).ok(),
+            _ => w.flush().ok(),
         };
-        if !ok {
-            return false;
-        }
+        rets.push(r.unwrap_or(usize::MAX));
     }
-    true
 }
 
 fn section_ops(rng: &mut Rng, n: usize) -> Vec<WOp> {
     (0..n)
-        .map(|_| match rng.below(3) {
+        .map(|k| match if k == 0 && rng.chance(1, 3) { 3 } else { rng.below(7) % 4 } {
+            3 => WOp::Flush,
             0 => {
                 let nb = rng.below(65) as usize;
                 let v = rng.next();
@@ -351,37 +350,44 @@ macro_rules! section_case {
         let b = section_ops($rng, nb);
         let c = section_ops($rng, nc);
         let mut bits: Bits = vec![];
+        let mut want_rets: Vec<usize> = vec![];
         for op in a.iter() {
-            model_apply(&mut bits, e, wbits, op);
+            want_rets.push(model_apply(&mut bits, e, wbits, op));
         }
         let before = bits.len();
+        let mut section = 0usize;
         for op in b.iter() {
-            model_apply(&mut bits, e, wbits, op);
+            let l0 = bits.len();
+            want_rets.push(model_apply(&mut bits, e, wbits, op));
+            // the counter counts bits written, not the padding of a flush
+            if !matches!(op, WOp::Flush) {
+                section += bits.len() - l0;
+            }
         }
-        let section = bits.len() - before;
         for op in c.iter() {
-            model_apply(&mut bits, e, wbits, op);
+            want_rets.push(model_apply(&mut bits, e, wbits, op));
         }
         let kvf = || format!("side=section e={} w={} a={} b={} c={}", e.name(), stringify!($W), wops_to_string(&a), wops_to_string(&b), wops_to_string(&c));
         // ---- writer: the wrapper must leave the wrapped writer exactly where an unwrapped one would be
         let got = guard_v(|| {
+            let mut rets: Vec<usize> = vec![];
             let mut w = BufBitWriter::<$E, _>::new(MemWordWriterVec::new(Vec::<$W>::new()));
-            apply_w::<$E, _>(&mut w, &a);
+            apply_w::<$E, _>(&mut w, &a, &mut rets);
             let mut cw = CountBitWriter::<$E, _, false>::new(w);
-            apply_w::<$E, _>(&mut cw, &b);
+            apply_w::<$E, _>(&mut cw, &b, &mut rets);
             let counted = cw.bits_written;
             let mut w = cw.into_inner();
-            apply_w::<$E, _>(&mut w, &c);
-            (counted, crate::backends::bytes_from_words(&w.into_inner().unwrap().into_inner()))
+            apply_w::<$E, _>(&mut w, &c, &mut rets);
+            (counted, crate::backends::bytes_from_words(&w.into_inner().unwrap().into_inner()), rets)
         });
         rep.eval(1);
         rep.case(&("section-writer", e, stringify!($W), before % wbits, section % wbits));
         let img = image(&bits, e, wbits / 8);
         match &got {
-            Out::Ok((counted, bytes)) if *counted == section && *bytes == img => {}
+            Out::Ok((counted, bytes, rets)) if *counted == section && *bytes == img && *rets == want_rets => {}
             o => rep.violation(
                 &format!("CountBit|section|writer|{}|{}", e.name(), if !o.is_ok() { o.class() } else { "stream-differs".to_string() }),
-                || format!("wrapping only the middle section ({} bits after {} bits) and unwrapping with into_inner: {:?}; the unwrapped stream is {} and the section has {} bits", section, before, o, hex(&img), section),
+                || format!("wrapping only the middle section ({} bits after {} bits) and unwrapping with into_inner: {:?}; the unwrapped stream is {}, the section has {} bits and the operations return {:?}", section, before, o, hex(&img), section, want_rets),
                 kvf,
             ),
         }
@@ -394,22 +400,32 @@ macro_rules! section_case {
         let read_back = guard_v(|| {
             let mut out: Vec<u64> = vec![];
             let mut r = BufBitReader::<$E, _>::new(MemWordReader::new(words.clone()));
-            fn rd<E: Endianness, BR: BitRead<E> + GammaRead<E>>(r: &mut BR, ops: &[WOp], out: &mut Vec<u64>) {
+            /// returns the number of padding bits skipped where the writer flushed
+            fn rd<E: Endianness, BR: BitRead<E> + GammaRead<E> + BitSeek>(r: &mut BR, ops: &[WOp], out: &mut Vec<u64>, wbits: u64) -> usize {
+                let mut padding = 0usize;
                 for op in ops {
                     match op {
                         WOp::Bits(_, n) => out.push(r.read_bits(*n).unwrap()),
                         WOp::Unary(_) => out.push(r.read_unary().unwrap()),
                         WOp::Code(..) => out.push(r.read_gamma().unwrap()),
-                        _ => {}
+                        _ => {
+                            // the writer flushed here: skip its padding
+                            let p = r.bit_pos().ok().unwrap();
+                            let pad = ((wbits - p % wbits) % wbits) as usize;
+                            r.skip_bits(pad).unwrap();
+                            padding += pad;
+                        }
                     }
                 }
+                padding
             }
-            rd::<$E, _>(&mut r, &a, &mut out);
+            rd::<$E, _>(&mut r, &a, &mut out, wbits as u64);
             let mut cr = CountBitReader::<$E, _, false>::new(r);
-            rd::<$E, _>(&mut cr, &b, &mut out);
-            let counted = cr.bits_read;
+            let pad_b = rd::<$E, _>(&mut cr, &b, &mut out, wbits as u64);
+            // the reader's counter also counts the padding it skipped
+            let counted = cr.bits_read - pad_b;
             let mut r = cr.into_inner();
-            rd::<$E, _>(&mut r, &c, &mut out);
+            rd::<$E, _>(&mut r, &c, &mut out, wbits as u64);
             (counted, out, r.bit_pos().unwrap())
         });
         let want: Vec<u64> = a.iter().chain(b.iter()).chain(c.iter()).filter_map(|op| match op {
